@@ -99,6 +99,8 @@ fn any_items() -> ([Item; N_ITEMS], usize) {
 #[kani::proof]
 #[kani::unwind(10)]
 #[kani::stub(<crate::message::rpc::Error as crate::message::ReadXml>::read_xml, crate::message::rpc::error::verif_error::stub_read_xml)]
+#[kani::stub(crate::message::rpc::Errors::new, crate::message::rpc::error::verif_error::stub_errors_new)]
+#[kani::stub(crate::message::rpc::Errors::push, crate::message::rpc::error::verif_error::stub_errors_push)]
 fn c08_empty_reply() {
     use_reply_tables();
     let (items, n) = any_items();
@@ -128,6 +130,8 @@ fn c08_empty_reply() {
 #[kani::proof]
 #[kani::unwind(10)]
 #[kani::stub(<crate::message::rpc::Error as crate::message::ReadXml>::read_xml, crate::message::rpc::error::verif_error::stub_read_xml)]
+#[kani::stub(crate::message::rpc::Errors::new, crate::message::rpc::error::verif_error::stub_errors_new)]
+#[kani::stub(crate::message::rpc::Errors::push, crate::message::rpc::error::verif_error::stub_errors_push)]
 fn c08_data_reply() {
     use crate::message::rpc::operation::Opaque;
     use_reply_tables();
@@ -157,6 +161,8 @@ fn c08_data_reply() {
 #[kani::proof]
 #[kani::unwind(10)]
 #[kani::stub(<crate::message::rpc::Error as crate::message::ReadXml>::read_xml, crate::message::rpc::error::verif_error::stub_read_xml)]
+#[kani::stub(crate::message::rpc::Errors::new, crate::message::rpc::error::verif_error::stub_errors_new)]
+#[kani::stub(crate::message::rpc::Errors::push, crate::message::rpc::error::verif_error::stub_errors_push)]
 fn c08_bare_reply() {
     use crate::message::rpc::operation::junos::BareReply;
     use_reply_tables();
